@@ -106,8 +106,13 @@ def run(P, tier="quick"):
 
             def per_system(v):
                 inside = any(d.get("decl") == v.refdecl and body.is_ancestor_of(d) for d in f.vardecls())
+                # an assignment inside the loop (body or increment) whose right-hand side does not mention the counter
+                # itself restarts it (v = 0) or makes it the size of one system (v = equations): it does not accumulate
+                init = lp.kids[0]
                 reset = any(m.k == "BinaryOperator" and m.op == "=" and m.kids[0].strip().k == "DeclRefExpr" and
-                            m.kids[0].strip().refdecl == v.refdecl and body.is_ancestor_of(m) and m.kids[1].strip().cv == 0
+                            m.kids[0].strip().refdecl == v.refdecl and lp.is_ancestor_of(m) and
+                            not (init is not None and init.is_ancestor_of(m)) and
+                            not any(x.k == "DeclRefExpr" and x.refdecl == v.refdecl for x in m.kids[1].walk())
                             for m in f.walk())
                 return inside or reset
             key = "R32|%s|%s|index:%s[%s]" % (f.file, f.name, b.refname, idx.text()[:30])
